@@ -28,6 +28,9 @@ RULE = ("element matrices of Strain(voigt T/F)/Stress/ElementAverage/ThermoMecha
         "element matrices, seeds and directions for all operator shapes incl. the repeat path (exact) with the adjoint oracle "
         "<w, Op(u+v)-Op(u)> = <sens(w), v> on the real code. distinct = distinct generated case keys, all non-trivial (nel >= 1)")
 ASSUMPTIONS = [
+    "instance isolation: every module under test is preceded (and, between construction and response, interleaved) by decoy "
+    "modules of the same class differing in one configuration parameter, and by an identically configured decoy whose results "
+    "are scaled in place; a leak from a decoy shows up as a correspondence disagreement / oracle failure of the module under test",
     "a fresh module is used per call: element_matrix/dofconn cached inside ElementOperation across calls with a different "
     "number of dofs per node is history (C03), not part of C12",
     "1-D domains (nely = 0) are outside the property's quantifier and are not generated",
@@ -129,55 +132,143 @@ def vol(g):
 # ------------------------------------------------------------------------------------------------
 # real-code runners (fresh module per call)
 # ------------------------------------------------------------------------------------------------
-def run_module(kind, g, u, mat=None, voigt=True):
+# instance isolation: DECOY modules of the same class run before the module under test is constructed and once more
+# between its construction and its response().  A decoy differs from the module under test in exactly ONE parameter a
+# careless cache key could omit (2-D thickness unitz, unitx, unity, nelx<->nely with the same nel, E, nu, plane mode,
+# alpha, voigt flag, element operator of the same shape with other values); the last pre-decoy has the IDENTICAL
+# configuration and its element matrix / output are scaled in place afterwards (a cache handing out shared arrays).
+# Nothing a decoy computed may leak.  The choice is a deterministic function of the case, so replays re-create it.
+DECOYS = True
+
+
+def _mk(kind, g, inp, mat=None, voigt=True, alpha=None, EM=None):
     pm = _pm()
     dom = mk_dom(g)
-    s = pm.Signal("u", np.array(u, dtype=float))
+    s = pm.Signal("in", np.array(inp, dtype=float))
     if kind == "strain":
         m = pm.Strain(s, domain=dom, voigt=voigt)
     elif kind == "stress":
         m = pm.Stress(s, domain=dom, e_modulus=float(mat["E"]), poisson_ratio=float(mat["nu"]), plane=mat["plane"])
     elif kind == "average":
         m = pm.ElementAverage(s, domain=dom)
+    elif kind == "thermo":
+        m = pm.ThermoMechanical(s, domain=dom, e_modulus=float(mat["E"]), poisson_ratio=float(mat["nu"]),
+                                alpha=float(alpha), plane=mat["plane"])
+    elif kind == "K":
+        m = pm.AssembleStiffness(s, domain=dom, e_modulus=float(mat["E"]), poisson_ratio=float(mat["nu"]), plane=mat["plane"])
+    elif kind == "elemop":
+        m = pm.ElementOperation(s, domain=dom, element_matrix=np.array(EM, dtype=float))
+    elif kind == "nodalop":
+        m = pm.NodalOperation(s, domain=dom, element_matrix=np.array(EM, dtype=float))
     else:
         raise ValueError(kind)
+    return m, s, dom
+
+
+def decoy_variants(kind, g, mat, voigt, alpha, EM):
+    """(name, kwargs for _mk) differing from the configuration under test in exactly one parameter"""
+    out = []
+    sz = [float(v) for v in g["s"]]
+    for a, nm in ((2, "unitz"), (0, "unitx"), (1, "unity")):
+        t = list(sz)
+        t[a] = sz[a] * 2.0 if sz[a] <= 1.0 else sz[a] * 0.5
+        out.append((nm, dict(g=dict(g, s=t), mat=mat, voigt=voigt, alpha=alpha, EM=EM)))
+    if g["nelx"] != g["nely"]:
+        out.append(("nelx<->nely", dict(g=dict(g, nelx=g["nely"], nely=g["nelx"]), mat=mat, voigt=voigt, alpha=alpha, EM=EM)))
+    if kind == "strain":
+        out.append(("voigt", dict(g=g, mat=mat, voigt=not voigt, alpha=alpha, EM=EM)))
+    if kind in ("stress", "thermo", "K"):
+        out.append(("E", dict(g=g, mat=dict(mat, E=float(mat["E"]) * 1.5 + 0.25), voigt=voigt, alpha=alpha, EM=EM)))
+        nu = float(mat["nu"])
+        out.append(("nu", dict(g=g, mat=dict(mat, nu=(0.1 if abs(nu - 0.1) > 0.05 else 0.35)), voigt=voigt, alpha=alpha, EM=EM)))
+        if g["dim"] == 2:
+            pl = "stress" if "strain" in str(mat["plane"]).lower() else "strain"
+            out.append(("plane", dict(g=g, mat=dict(mat, plane=pl), voigt=voigt, alpha=alpha, EM=EM)))
+    if kind == "thermo":
+        out.append(("alpha", dict(g=g, mat=mat, voigt=voigt, alpha=float(alpha) * 1.5 + 0.25, EM=EM)))
+    if kind in ("elemop", "nodalop"):
+        E2 = np.array(EM, dtype=float)
+        E2 = E2 + 1.0 + (np.arange(E2.size).reshape(E2.shape) % 3)
+        out.append(("element matrix values", dict(g=g, mat=mat, voigt=voigt, alpha=alpha, EM=E2)))
+    return out
+
+
+def _decoy_pick(kind, g, mat, voigt, alpha, EM, when, k):
+    import hashlib
+    vs = decoy_variants(kind, g, mat, voigt, alpha, EM)
+    key = json.dumps([when, kind, g, mat, voigt, alpha, None if EM is None else np.asarray(EM).tolist()], sort_keys=True, default=str)
+    h = int(hashlib.sha1(key.encode()).hexdigest(), 16)
+    picked = []
+    if when == "pre":
+        picked.append(vs.pop(0))        # the thickness / unitz variant
+    while len(picked) < k and vs:
+        picked.append(vs.pop(h % len(vs)))
+        h //= 7
+    return picked
+
+
+def _run_decoy(kind, inp, kw, scale_after=False):
+    try:
+        ramp = np.cos(0.37 * np.arange(np.size(inp)) + 0.2).reshape(np.shape(inp))
+        m, _, _ = _mk(kind, kw["g"], ramp, kw["mat"], kw["voigt"], kw["alpha"], kw["EM"])
+        m.response()
+        if scale_after:
+            for attr in ("element_matrix", "elmat", "stiffness_element"):
+                if isinstance(getattr(m, attr, None), np.ndarray):
+                    getattr(m, attr)[...] *= 3.0
+            y = m.sig_out[0].state
+            if isinstance(y, np.ndarray):
+                y *= 5.0
+    except Exception:
+        pass
+
+
+def run_decoys(when, kind, g, inp, mat=None, voigt=True, alpha=None, EM=None):
+    if not DECOYS:
+        return
+    # differing decoys first (an incomplete cache key is then primed with the wrong entry), the identical one last
+    for _, kw in _decoy_pick(kind, g, mat, voigt, alpha, EM, when, 2 if when == "pre" else 1):
+        _run_decoy(kind, inp, kw)
+    if when == "pre":
+        _run_decoy(kind, inp, dict(g=g, mat=mat, voigt=voigt, alpha=alpha, EM=EM), scale_after=True)
+
+
+def _tested(kind, g, inp, mat=None, voigt=True, alpha=None, EM=None):
+    """the module under test: decoys, construction, a decoy, then the caller runs response()"""
+    run_decoys("pre", kind, g, inp, mat, voigt, alpha, EM)
+    m, s, dom = _mk(kind, g, inp, mat, voigt, alpha, EM)
+    run_decoys("post", kind, g, inp, mat, voigt, alpha, EM)
+    return m, s, dom
+
+
+def run_module(kind, g, u, mat=None, voigt=True):
+    m, _, dom = _tested(kind, g, u, mat=mat, voigt=voigt)
     em = np.array(m.element_matrix, dtype=float)
     m.response()
     return em, np.asarray(m.sig_out[0].state), dom
 
 
 def run_thermo(g, x, mat, alpha):
-    pm = _pm()
-    dom = mk_dom(g)
-    s = pm.Signal("x", np.array(x, dtype=float))
-    m = pm.ThermoMechanical(s, domain=dom, e_modulus=float(mat["E"]), poisson_ratio=float(mat["nu"]),
-                            alpha=float(alpha), plane=mat["plane"])
+    m, _, dom = _tested("thermo", g, x, mat=mat, alpha=alpha)
     em = np.array(m.element_matrix, dtype=float)
     m.response()
     return em, np.asarray(m.sig_out[0].state), dom
 
 
 def run_K(g, x, mat):
-    pm = _pm()
-    dom = mk_dom(g)
-    s = pm.Signal("x", np.array(x, dtype=float))
-    m = pm.AssembleStiffness(s, domain=dom, e_modulus=float(mat["E"]), poisson_ratio=float(mat["nu"]), plane=mat["plane"])
+    m, _, _ = _tested("K", g, x, mat=mat)
     m.response()
     return m.sig_out[0].state.toarray()
 
 
 def run_elemop(g, EM, u):
-    pm = _pm()
-    dom = mk_dom(g)
-    m = pm.ElementOperation(pm.Signal("u", np.array(u, dtype=float)), domain=dom, element_matrix=np.array(EM, dtype=float))
+    m, _, _ = _tested("elemop", g, u, EM=EM)
     m.response()
     return np.asarray(m.sig_out[0].state)
 
 
 def run_nodalop(g, EM, x):
-    pm = _pm()
-    dom = mk_dom(g)
-    m = pm.NodalOperation(pm.Signal("x", np.array(x, dtype=float)), domain=dom, element_matrix=np.array(EM, dtype=float))
+    m, _, _ = _tested("nodalop", g, x, EM=EM)
     m.response()
     return np.asarray(m.sig_out[0].state)
 
@@ -641,10 +732,7 @@ def stream_malformed(ctx):
 # ------------------------------------------------------------------------------------------------
 def run_elemop_sens(g, EM, u, dy, v):
     """real code: response, sensitivity for the seed dy, and the adjoint pairing with direction v"""
-    pm = _pm()
-    dom = mk_dom(g)
-    su = pm.Signal("u", np.array(u, dtype=float))
-    m = pm.ElementOperation(su, domain=dom, element_matrix=np.array(EM, dtype=float))
+    m, su, dom = _tested("elemop", g, u, EM=EM)
     m.response()
     y0 = np.array(m.sig_out[0].state, dtype=float)
     m.sig_out[0].sensitivity = np.array(dy, dtype=float).reshape(y0.shape)
@@ -657,10 +745,7 @@ def run_elemop_sens(g, EM, u, dy, v):
 
 
 def run_nodalop_sens(g, EM, x, dxseed, v):
-    pm = _pm()
-    dom = mk_dom(g)
-    sx = pm.Signal("x", np.array(x, dtype=float))
-    m = pm.NodalOperation(sx, domain=dom, element_matrix=np.array(EM, dtype=float))
+    m, sx, dom = _tested("nodalop", g, x, EM=EM)
     m.response()
     y0 = np.array(m.sig_out[0].state, dtype=float)
     m.sig_out[0].sensitivity = np.array(dxseed, dtype=float)
